@@ -22,7 +22,8 @@ RULE = ("Hypothesis draws pixels whose calibration data are ordinary gamma-like 
         "and DataArray.hdc.algo.spi (with and without groups). Validity oracles: outputs non-decreasing in x within a pixel(-group), "
         "equal x => equal output; where the float64 definition gives +-inf or leaves int16 the output is +32767 / -32767|-32768, never "
         "a mid-range value; nodata and negative cells -> nodata; unfittable pixel -> nodata everywhere; no exception; each pixel of a "
-        "mixed cube equals its stand-alone result. Non-trivial: an index beyond +-3000, a bad pixel, or zeros present; distinct by hash.")
+        "mixed cube equals its stand-alone result. Non-trivial: an index beyond +-3000, a bad pixel, or zeros present; distinct by hash. "
+        " Added after the fifth seeded round: Generic 'history' sub-check for spi.")
 ASSUME = ["SciPy evaluation of the definition decides which cells must saturate (cells within 1.5 units of the int16 limit accept both)"]
 
 BAD_KINDS = ["all_nodata", "all_negative", "all_zero", "constant", "zeros95", "no_positive_in_window", "neg_and_nodata"]
